@@ -234,6 +234,35 @@ def run(ctx):
         if not err <= bound:
             ctx.violation('%s does not recover g(z0) within the reported error estimate' % rep['kind'], got=str(v), exact=str(exact), error=err,
                           error_estimate=est, **rep)
+    # Residue with legal but very small base steps (the documented `scale` option: base step EPS**(1/scale), or a user step of 1e-15), at
+    # nonzero real poles: Residue multiplies f(z0 + h) by h**pole_order, so the steps must be exactly representable displacements
+    worst_small = 0.0
+    zs = [rng.uniform(-3, 3) for _ in range(ctx.budget(30, 200))]
+    for z0 in zs:
+        for p in (1, 2, 3):
+            gname = rng.choice(list(G))
+            g = G[gname]
+            f = lambda z, g=g, z0=z0, p=p: g(z) / (z - z0) ** p
+            for ratio in (2, 3):
+                for extra in ({'scale': 1.1}, {'scale': 1.05}, {'step': 1e-15}):
+                    rep = dict(kind='Residue', g=gname, pole_order=p, z0=z0, step_ratio=ratio, options=str(extra))
+                    ctx.tried(('residue-small-steps', z0, p, ratio, str(extra)))
+                    try:
+                        with warnings.catch_warnings():
+                            warnings.simplefilter('ignore')
+                            val, info = Residue(f, pole_order=p, full_output=True, step_ratio=ratio, **extra)(z0)
+                    except Exception as ex:
+                        ctx.violation('Residue raised %r' % ex, **rep)
+                        continue
+                    exact = complex(g(z0))
+                    err = abs(complex(np.ravel(val)[0]) - exact)
+                    est = float(np.ravel(np.abs(info.error_estimate))[0])
+                    bound = K_EST * est + FLOOR * (1 + abs(exact))
+                    worst_small = max(worst_small, err / bound)
+                    if not err <= bound:
+                        ctx.violation('Residue (small base step) does not recover g(z0) within the reported error estimate', got=str(val),
+                                      exact=str(exact), error=err, error_estimate=est, **rep)
+    ctx.notes.append('Residue with small base steps: worst err / bound %.3g' % worst_small)
     ctx.notes.append('worst err / (1000 est + 1e-11 scale) on this run: %.3g' % worst)
     ctx.notes.append('largest (err - 1000 est) / (1 + |g(z0)|): %.3g' % excess[0])
     ctx.assumptions.append('truncation for non-polynomial kernels and rounding are explored, not proved; the selection stage on complex data is '
